@@ -17,10 +17,10 @@ import vlib, runner, viewgen, excgen, fmtgen, valgen
 PID = "C18"
 CONFIGS = {"default": (), "ndebug": ("-DCELLO_NDEBUG",), "nocache": ("-DCELLO_CACHE=0",), "ngc": ("-DCELLO_NGC",)}
 HARNESSES = {"h_seq": (["h_seq.c"], ()), "h_map": (["h_map.c"], ("Tree.c",)), "h_str": (["h_str.c"], ()), "h_view": (["h_view.c"], ()),
-             "h_exc": (["h_exc.c"], ()), "h_fmt": (["h_fmt.c"], ()), "h_val": (["h_val.c"], ())}
+             "h_exc": (["h_exc.c"], ()), "h_fmt": (["h_fmt.c"], ()), "h_val": (["h_val.c"], ()), "h_type": (["h_type.c"], ())}
 TRACE_SPEC = {"h_seq": ("SeqTrace", "SeqTrace_seq.cfg"), "h_map": ("MapTrace", "MapTrace_map.cfg"), "h_str": ("CStringTrace", "CStringTrace.cfg"),
               "h_view": ("ViewTrace", "ViewTrace.cfg"), "h_exc": ("ExcTrace", "ExcTrace.cfg"), "h_fmt": ("FmtTrace", "FmtTrace_print.cfg"),
-              "h_val": ("ValTrace", "ValTrace_cmp.cfg")}
+              "h_val": ("ValTrace", "ValTrace_cmp.cfg"), "h_type": ("DispatchTrace", "DispatchTrace.cfg")}
 hx = lambda b: b.hex() if b else "-"
 
 
@@ -128,6 +128,30 @@ def workloads(rng, quick):
     ex = fmtgen.print_execs(rng, True)
     W["h_fmt"] = [([], [[l for l in e if ",P," not in l and "WA" not in l and "WL" not in l and "WT" not in l] for e in ex[: max(2, n)]])]
     W["h_val"] = [([], [valgen.scalar_cmp_exec(rng, k) for k in "IFSX"] + [valgen.seq_cmp_exec(rng)])]
+    # dispatch without error paths: which instance / whether implemented, on built-in and run-time types, with the same Type
+    # object constructed again in place (cached answers must be forgotten whether or not there is a cache)
+    def type_exec():
+        NBt, NCt = 29, 42
+        hows = ["inst", "impl", "tinst", "timpl", "implm", "timplm"]
+        L = ["reset"]
+        ts = []
+        for k in range(2):
+            t = 100 + k
+            L.append("rt %d %s" % (t, " ".join(str(rng.randrange(NCt)) for _ in range(rng.choice([1, 5, 12])))))
+            L.append("decl %d" % t); ts.append(t)
+        bt = rng.sample([t for t in range(NBt) if t != 23], 3)        # 23 = GC: absent under CELLO_NGC
+        L += ["decl %d" % t for t in bt]
+        for rnd in range(2):
+            cells = [(t, c) for t in ts + bt for c in range(NCt)]
+            rng.shuffle(cells)
+            for (t, c) in cells:
+                L.append("look %s %d %d 0" % (rng.choice(hows), t, c))
+            if rnd == 0:
+                for t in ts:
+                    L.append("rert %d %s" % (t, " ".join(str(rng.randrange(NCt)) for _ in range(rng.choice([0, 3, 9])))))
+                    L.append("decl %d" % t)
+        return L
+    W["h_type"] = [([], [type_exec() for _ in range(max(2, n // 2))])]
     return W
 
 
